@@ -534,6 +534,9 @@ def run(ctx):
     for c, o, vs in zip(cases, obs, verdicts):
         if c["model"] != "MSSM" or c["force"] != 1 or len(c["ids"]) != 2 or o.get("crash") or o["refused"]:
             continue
+        if c["entry"].endswith("@repair"):
+            continue        # the final object is the valid point; which warnings the defective first phase printed depends on
+                            # where its setup stopped (a partner such as MW = MZ is refused before the soft masses are looked at)
         cf = cfg_of(c)
         have = wkinds(o)
         for i, d_id in enumerate(c["ids"]):
